@@ -23,6 +23,46 @@ EXPLANATION = ("invariant-preservation obligations over rustc MIR: for each site
                "interleavings are C16's rule.")
 
 
+def root_rules(facts, rep, rule):
+    n = 0
+    for asyncw in (False, True):
+        w_ = World(facts, asyncw)
+        if not w_.present():
+            continue
+        mod = w_.memory.rsplit("::", 1)[0] + "::"
+        holders = [name for name, a in facts.adts.items() if name.startswith(mod) and (asyncw or not name.startswith("async_vfs")) and
+                   any(f["ty"].startswith(("std::collections::HashMap<", "std::collections::BTreeMap<")) for v in a["variants"] for f in v["fields"])]
+        tag = "A/" if asyncw else ""
+        sites = 0
+        for b in facts.bodies:
+            for blk in b.blocks:
+                if blk.cleanup:
+                    continue
+                for st in blk.stmts:
+                    if st.kind == "assign" and st.rv.kind == "agg" and st.rv.agg.get("adt") in holders:
+                        sites += 1
+                        # the constructing function inserts ("", Directory) into a map
+                        ok = False
+                        tr = get_tracer(facts, b)
+                        for blk2 in b.calls():
+                            t = blk2.term
+                            if short(t.callee() or "") in ("HashMap::insert", "BTreeMap::insert") and len(t.args) == 3:
+                                k = norm(tr.operand(t.args[1]))
+                                v = norm(tr.operand(t.args[2]))
+                                kk = k
+                                while kk[0] == "call" and kk[2]:
+                                    kk = norm(kk[2][0])
+                                if kk == ("str", "") and v[0] == "agg" and dict(v[3]).get("file_type", ("",))[0] == "agg" and \
+                                        dict(v[3])["file_type"][2] == "Directory":
+                                    ok = True
+                        n += 1
+                        rep.ob(tag + rule, b.id, "the map is built with the root directory in it", ok,
+                               "\"\" -> Directory" if ok else "%s builds the filesystem state without inserting the root directory: "
+                               "exists(\"\") is false and nothing can be created (every parent is missing)" % b.id, st.line)
+        rep.floor("constructions of the in-memory state (%s)" % w_.tag, sites, 1)
+    return n
+
+
 def run(facts, rep, tier, ctx):
     ws = World(facts, False)
     from ..report import Report
@@ -98,21 +138,9 @@ def run(facts, rep, tier, ctx):
             rep.ob("A/R03.3", o["fn"], o["key"].split("|")[2], o["ok"], o["detail"], o["loc"])
         if r_.replace("A/", "") in ("R16.1", "R16.5", "R16.6"):
             rep.ob(("A/" if r_.startswith("A/") else "") + "R03.6", o["fn"], o["key"].split("|")[2], o["ok"], o["detail"], o["loc"])
-    # R03.4 root
-    ctor = facts.body("impls::memory::MemoryFsImpl::new")
-    ok = False
-    if ctor is not None:
-        tr = get_tracer(facts, ctor)
-        for blk in ctor.calls():
-            t = blk.term
-            if short(t.callee() or "") == "HashMap::insert" and len(t.args) == 3:
-                k = norm(tr.operand(t.args[1]))
-                v = norm(tr.operand(t.args[2]))
-                if k == ("str", "") and v[0] == "agg" and dict(v[3]).get("file_type", ("",))[0] == "agg" and \
-                        dict(v[3])["file_type"][2] == "Directory":
-                    ok = True
-    rep.ob("R03.4", "impls::memory::MemoryFsImpl::new", "root inserted as a directory", ok,
-           "\"\" -> Directory" if ok else "the map is not initialised with the root directory", ctor.span if ctor else "")
+    # R03.4 root: wherever the struct that holds the key -> entry map is built, the map has the root "" as a Directory in it —
+    # in every constructor, derived ones included (a derived Default builds an empty map: a filesystem without a root)
+    root_rules(facts, rep, "R03.4")
     # R03.5 overlay + delegation
     try:
         from . import c09
